@@ -9,6 +9,7 @@ use common::Tier;
 
 fn main() {
     common::install_panic_hook();
+    common::all_tracing_on_if_asked();
     let args: Vec<String> = std::env::args().collect();
     if args.len() < 2 {
         eprintln!("usage: verif <ID> quick|thorough | verif <ID> --replay <file> | verif selftest");
